@@ -70,6 +70,8 @@ def scenario_stream(seed, count, pid, with_corpus=True):
     if with_corpus:
         for name, sc in corpus_items(pid, "S"):
             yield "c_" + name.replace(".json", "").replace(" ", ""), sc
+    for j, sc in enumerate(S.directed(random.Random(base.randrange(1 << 62)))):
+        yield "d%d" % j, sc
     for k in range(count):
         rng = random.Random(base.randrange(1 << 62))
         kw = {}
